@@ -73,6 +73,58 @@ THEOREMS = [
     "Verif.C13.cubic_jac_eq_implicit_cardano",
     "Verif.C13.twlc_distance_hasDerivAt",
     "Verif.C13.efjc_distance_hasDerivAt",
+    # deepening round D
+    "Verif.C13.trig_chain_eq_implicit",
+    "Verif.C13.trig_band_free",
+    "Verif.C13.trig_root_is_simple_root",
+    "Verif.C13.cardano_chain_eq_implicit",
+    "Verif.C13.det_ne_zero_necessary",
+    "Verif.C13.cubic_jac_eq_implicit",
+    "Verif.C13.cardano_root_is_simple_root",
+    "Verif.C13.cubic_root_hasDerivAt",
+    "Verif.C13.efjc_distance_jac",
+    "Verif.C13.twlc_distance_jac",
+    "Verif.C13.composite_jacobian_end_to_end",
+    "Verif.C13.offset_jacobian_end_to_end",
+    "Verif.C13.fit_row_code_eq_accumulating",
+    "Verif.C13.composite_indices_established",
+    "Verif.C13.offset_indices_established",
+    "Verif.C13.fit_indices_established",
+    "Verif.C13.parameterNames_sub_globalNames",
+    "Verif.C13.M.params_nodup",
+    "Verif.C13.tree_derivative_sound",
+    "Verif.C13.leaf_der_ok",
+    "Verif.C13.groupConditions_perm",
+    "Verif.C13.groupConditions_same_key",
+    "Verif.C13.fitJacobian_shape",
+    "Verif.C13.tree_jacobian_sound",
+    "Verif.C13.leaf_jac_ok",
+    "Verif.C13.leaf_jac_ok_cubic",
+    "Verif.C13.demo_tree_hypotheses",
+    "Verif.C13.efjc_distance_jac_Lc_St",
+    "Verif.C13.efjc_distance_above_guards",
+    "Verif.C13.efjc_distance_between_guards",
+    "Verif.C13.inverted_tree_derivative_sound",
+    "Verif.C13.demo_inverted",
+    "Verif.C13.OF.jac_Lp_hasDerivAt",
+    "Verif.C13.OF.jac_Lc_hasDerivAt",
+    "Verif.C13.OF.jac_St_hasDerivAt",
+    "Verif.C13.OF.jac_kT_hasDerivAt",
+    "Verif.C13.OF.der_hasDerivAt",
+    "Verif.C13.WD.jac_Lp_hasDerivAt",
+    "Verif.C13.WD.jac_Lc_hasDerivAt",
+    "Verif.C13.WD.jac_kT_hasDerivAt",
+    "Verif.C13.WD.der_hasDerivAt",
+    "Verif.C13.EF.jac_Lp_hasDerivAt",
+    "Verif.C13.EF.jac_Lc_hasDerivAt",
+    "Verif.C13.EF.jac_St_hasDerivAt",
+    "Verif.C13.EF.jac_kT_hasDerivAt",
+    "Verif.C13.EF.der_hasDerivAt",
+    "Verif.C13.ED.jac_Lp_hasDerivAt",
+    "Verif.C13.ED.jac_Lc_hasDerivAt",
+    "Verif.C13.ED.jac_St_hasDerivAt",
+    "Verif.C13.ED.jac_kT_hasDerivAt",
+    "Verif.C13.ED.der_hasDerivAt",
 ]
 for _ns, _vars in (("OF", "Lp Lc St kT d"), ("WD", "Lp Lc kT f"), ("EF", "Lp Lc St kT d"), ("ED", "Lp Lc St kT f")):
     THEOREMS += [f"Verif.C13.{_ns}.row_{v}" for v in _vars.split()]
@@ -675,6 +727,10 @@ def impl(case):
                     out.append(fl(at(obj.derivative(x, p), pos)))
                 except Exception as e:
                     out.append(errname(e))
+            try:  # the model function itself, through the public `model(x, {name: value})` (tie of M.val)
+                out.append(fl(at(call_model(obj, x, dict(zip(names, p))), pos)))
+            except Exception as e:
+                out.append(errname(e))
             return out
         if k == "fit":
             fit, _ = build_fit(case)
@@ -852,6 +908,7 @@ def ops(case):
         out = [" ".join(["c13.tree", w] + head + tail) for w in ("names", "jac")]
         if has_derivative(case["tree"]):
             out.append(" ".join(["c13.tree", "der"] + head + tail))
+        out.append(" ".join(["c13.tree", "val"] + head + tail))  # LAST: the function M.der / M.jac differentiate (M.val)
         return out
     if k == "fit":
         toks = assoc_tokens(case["values"]) + [str(len(case["models"]))]
@@ -979,6 +1036,10 @@ def agree(case, i, ia, ma):
                 a, b = parse_floats(ia), parse_floats(ma)
                 pv = pvec(case, list(obj_of(case["tree"]).parameter_names))
                 return len(a) == len(b) and rows_close(a, b, pv, rel)
+            if i == (3 if has_derivative(case["tree"]) else 2):
+                # value of the composition (M.val): the parts' values add up / are shifted; a sum of parts of opposite
+                # sign is compared on the scale of the parts (the largest |leaf value| is not known here: use |x| + |value|)
+                return close(dec(ia), dec(ma), rel, rel * abs(float(case["x"])))
             return close(dec(ia), dec(ma), rel)
         if k == "fit":
             if " | " not in ia or " | " not in ma:
@@ -2356,6 +2417,26 @@ def cases(tier, rng):
             add_history(sub, c, ["base", kind, "m"], pd, names=leaf_names(kind, "m"))
         yield c
 
+    # ---- raw cubics, exhaustive small scope (deepening round D): every cubic with three distinct non-zero integer roots in -3..3
+    # (det < 0: trigonometric branch, theorem trig_chain_eq_implicit) and every cubic with a non-zero real root in -2..2 and a
+    # complex pair re +- i im, re in -1..1, im in 1..2 (det > 0: Cardano branch), each for all three root indices; the
+    # coefficients are exact integers, so the branch is decided without rounding.  Roots are non-zero: a root that is
+    # exactly 0 is returned as a rounding residue (1e-16) of which no digit is determined, so neither the model
+    # comparison nor the oracle (both relative) says anything about it
+    nz = [v for v in range(-3, 4) if v != 0]
+    for r1 in nz:
+        for r2 in [v for v in nz if v > r1]:
+            for r3_ in [v for v in nz if v > r2]:
+                for k_ in range(3):
+                    yield {"stream": "small-scope", "op": "cubic", "a": float(-(r1 + r2 + r3_)), "b": float(r1 * r2 + r1 * r3_ + r2 * r3_),
+                           "c": float(-r1 * r2 * r3_), "k": k_}
+    for r0_ in (-2, -1, 1, 2):
+        for re_ in range(-1, 2):
+            for im_ in (1, 2):
+                for k_ in range(3):
+                    yield {"stream": "small-scope", "op": "cubic", "a": float(-(r0_ + 2 * re_)), "b": float(2 * r0_ * re_ + re_ * re_ + im_ * im_),
+                           "c": float(-r0_ * (re_ * re_ + im_ * im_)), "k": k_}
+
     # ---- raw cubics: all three root indices, both branches (from chosen roots, so that the branch is controlled)
     N = 300 if quick else 6000
     r = rng.fork("c13-cubic")
@@ -2395,6 +2476,61 @@ def cases(tier, rng):
         c["stream"] = "random"
         c["subseed"] = i
         yield c
+
+
+def leaf_name_lists(tree):
+    t = tree[0]
+    if t == "base":
+        return [leaf_names(tree[1], tree[2])]
+    if t in ("efjc_f", "twlc_f"):
+        return [leaf_names("efjc_d" if t == "efjc_f" else "twlc_d", tree[1])]
+    return [l_ for sub in tree[1:] if isinstance(sub, list) for l_ in leaf_name_lists(sub)]
+
+
+def deepening_coverage(results):
+    """which hypotheses / branches of the theorems added in deepening round D the cases of this run fall under"""
+    kb, side, wf, scope = {}, {"f < Fc": 0, "f > Fc": 0, "f == Fc (outside twlc_distance_jac)": 0}, [0, 0], {"trig": 0, "cardano": 0}
+    rows = {"data sets mapping their parameters to DISTINCT fit parameters (code row = accumulating row: fit_row_code_eq_accumulating)": 0,
+            "data sets with two parameters on one fit parameter (F16 layout)": 0}
+    efjc = {"2 f Lp / kT < 300 (efjc_distance_jac applies)": 0, ">= 300 (guards active, outside the theorem)": 0}
+    for r in results:
+        c = r["case"]
+        try:
+            if c["op"] == "base" and c.get("stream") != "malformed":
+                if c["kind"] in CUBIC and len(r["model"]) > 1 and " " in r["model"][1]:
+                    key = c["kind"] + "/" + r["model"][1].split(" ")[0].split(":")[0]
+                    kb[key] = kb.get(key, 0) + 1
+                if c["kind"] == "twlc_d":
+                    f_, Fc_ = c["x"], c["p"][6]
+                    side["f < Fc" if f_ < Fc_ else "f > Fc" if f_ > Fc_ else "f == Fc (outside twlc_distance_jac)"] += 1
+                if c["kind"] == "efjc_d":
+                    efjc[list(efjc)[0 if 2.0 * c["x"] * c["p"][0] / c["p"][3] < 300 else 1]] += 1
+            if c["op"] == "cubic" and c.get("stream") == "small-scope":
+                a_, b_, c_ = c["a"], c["b"], c["c"]
+                p_ = b_ - a_ * a_ / 3.0
+                q_ = 2.0 * a_**3 / 27.0 - a_ * b_ / 3.0 + c_
+                scope["trig" if q_ * q_ / 4.0 + p_**3 / 27.0 < 0 else "cardano"] += 1
+            if c["op"] == "tree":
+                wf[1] += 1
+                if all(len(set(l_)) == len(l_) for l_ in leaf_name_lists(c["tree"])):
+                    wf[0] += 1
+            if c["op"] == "fit":
+                for m in c["models"]:
+                    pn = list(obj_of(m["tree"]).parameter_names)
+                    for d in m["data"]:
+                        tr = dict(d["trans"])
+                        strs = [tr.get(n, n) for n in pn if isinstance(tr.get(n, n), str)]
+                        rows[list(rows)[0 if len(set(strs)) == len(strs) else 1]] += 1
+        except Exception:
+            pass
+    return {
+        "cubic models on the grid / box, by kind and branch+band (jac_*_hasDerivAt / der_hasDerivAt apply to CN and TN)": kb,
+        "raw cubics of the exhaustive integer-root scope (3 root indices each)": scope,
+        "twlc_d base cases by side of the regime boundary (twlc_distance_jac: either side)": side,
+        "efjc_d base cases by overflow-guard regime": efjc,
+        "compositions whose leaves have distinct parameter names (hypothesis WF of composite/offset_jacobian_end_to_end)": f"{wf[0]}/{wf[1]}",
+        "fit rows by hypothesis of fit_row_code_eq_accumulating": rows,
+    }
 
 
 def extra_coverage(results):
@@ -2505,7 +2641,9 @@ def extra_coverage(results):
                 for d in m["data"]:
                     for n, v in d["trans"]:
                         fit_layout["pinned" if not isinstance(v, str) else "renamed"] += 1
+    deep = deepening_coverage(results)
     return {
+        "deepening_round_D": deep,
         "case_kinds": kinds,
         "cubic_branch_and_band": branches,
         "cubic_branch_legend": "C = Cardano chain rule (det > 0), T = trigonometric (det <= 0); R = inside the regularised band, N = outside; '-' = closed form",
